@@ -287,6 +287,28 @@ type (
 	}
 )
 
+// SameNameTypes returns non-recursive types that contain, at some depth, a different type with
+// the same printed name (reflect.Type.String is not an identity).
+func SameNameTypes() []reflect.Type {
+	type Item struct{ N int }
+	type inner = Item
+	a := func() reflect.Type {
+		type Item struct {
+			Sub  inner
+			Name string
+		}
+		return reflect.TypeOf(Item{})
+	}()
+	b := func() reflect.Type {
+		type Item struct {
+			Subs []*inner `json:"subs"`
+			M    map[string]inner
+		}
+		return reflect.TypeOf([]Item{})
+	}()
+	return []reflect.Type{a, b}
+}
+
 // Catalog returns the declared catalogue.
 func Catalog() []T {
 	mkT := func(x any, class string) T {
@@ -316,6 +338,9 @@ func Catalog() []T {
 		out = append(out, t)
 	}
 	out = append(out, mkT(RecUnexp{}, "catalog")) // recursion through an unexported field is invisible to encoding/json
+	for i, t := range SameNameTypes() {
+		out = append(out, T{Type: t, Desc: fmt.Sprintf("%s /*contains another type printed the same, variant %d*/", t, i), Class: "catalog"})
+	}
 	for _, x := range []any{BadFunc{}, BadChan{}, BadCplx{}, BadKey{}, BadUPtr{}, BadDeep{}, BadNamed{}, BadTwice{}, BadTwice2{}, OnlyBad{}, NamedFuncs{}, BadTagged{}, BadTaggedNest{}, &BadTagged{}, func() {}, make(chan int), complex64(0), map[int]int{}, []func(){}, map[string]chan int{}} {
 		t := mkT(x, "unsupported")
 		t.Unsupported = true
